@@ -52,6 +52,11 @@ def order_pool():
     P["r_4nb"] = X.rel(["a", "b"], [[N(1), N(1)], [N(1), N(2)], [N(2), N(1)], [N(2), N(3)]])
     P["rj_3c"] = X.join("<&>", X.join("<&>", X.rel(["c"], [[N(1)], [N(2)]]), X.rel(["a"], [[N(2)], [N(1)]])), X.rel(["b"], [[N(0)]]))
     P["r_3clit"] = X.rel(["a", "b", "c"], [[N(1), N(0), N(1)], [N(1), N(0), N(2)], [N(2), N(0), N(1)], [N(2), N(0), N(3)]])
+    # strings differing only in code points that have no UTF-8 encoding of their own (lone surrogates) or in U+FFFD
+    P["str_sur1"] = X.set_([X.tup([("@", N(0)), ("@char", N(55296))])])
+    P["str_sur2"] = X.set_([X.tup([("@", N(0)), ("@char", N(55297))])])
+    P["str_fffd"] = X.set_([X.tup([("@", N(0)), ("@char", N(65533))])])
+    P["str_sur_h"] = X.set_([X.tup([("@", N(0)), ("@char", N(55296))]), X.tup([("@", N(2)), ("@char", N(97))])])
     P["tt"] = X.tup([("a", X.tup([("b", N(1))]))])
     P["tset"] = X.tup([("a", X.set_([N(1)]))])
     return P
@@ -90,7 +95,7 @@ def main(tier, seed, replay=None):
             pick.update(rng.sample(lst, min(len(lst), 2)))
         # near-miss pairs are always in: they differ in exactly one respect (hole vs {}, key vs value order, offset only, ...)
         pick.update(n for n in ("ar_hole", "ar_empty_mid", "ar_empty_mid2", "ar_hole2", "ar_123", "te_19", "te_23", "te_13", "ti_19", "ti_23",
-                                "tc_1", "tc_2", "tb_1", "tb_2", "d19_23", "d12", "rj_ba", "r_ab", "rj_4", "r_4lit", "r_4nb", "rj_3c", "r_3clit", "str_off", "str_a", "by_off", "by_12",
+                                "tc_1", "tc_2", "tb_1", "tb_2", "d19_23", "d12", "rj_ba", "r_ab", "rj_4", "r_4lit", "r_4nb", "rj_3c", "r_3clit", "str_sur1", "str_sur2", "str_fffd", "str_sur_h", "str_off", "str_a", "by_off", "by_12",
                                 "empty", "true", "t0", "neg_set", "neg_tup") if n in P)
         rest = [n for n in names if n not in pick]
         pick.update(rng.sample(rest, min(len(rest), 6)))
